@@ -241,9 +241,12 @@ theorem transport_error_closes_session {F : Type} (evs more : List (Link.Ev F))
     let s := Link.settle (Link.run {} evs)
     s.sessUp = false ∧ s.nodeUp = false ∧ s.writerUp = false ∧ s.readerUp = false ∧
       s.mirror.proxies = [] ∧ s.mirror.members = [] ∧ (∀ pid, Link.accepts s pid = false) ∧
-      Link.run s more = s := by
+      (let s' := Link.run s more
+       s'.sessUp = false ∧ s'.nodeUp = false ∧ s'.mirror = {} ∧ s'.accepted = s.accepted) := by
   have hd := Link.settle_down _ (Link.inv_run evs _ Link.inv_init) hf
-  refine ⟨hd.sess, hd.node, hd.writer, hd.reader, by simp [hd.mirror], by simp [hd.mirror], ?_, Link.down_run more _ hd⟩
+  have hm := Link.down_run more _ hd
+  refine ⟨hd.sess, hd.node, hd.writer, hd.reader, by simp [hd.mirror], by simp [hd.mirror], ?_,
+    hm.1.sess, hm.1.node, hm.1.mirror, hm.2⟩
   intro pid
   simp [Link.accepts, hd.mirror]
 
@@ -324,6 +327,66 @@ theorem frames_reach_node_session_under_any_fragmentation {Msg : Type} (dec : Co
   refine h.trans ?_
   rw [Link.readFrames_encode dec max ps chunks hs hmax hdec, Link.oks_okOf dec ps hdec]
   simp [Link.oks]
+
+/-- (Mirror composed with the session; sends to a stopped reference fail) For every history of
+the session (control messages of the peer interleaved with traffic, transport errors, stops): a
+send through the remote reference `pid` is accepted iff the node session is up AND the control
+messages it has handled so far advertise `pid` without a later `Terminate` — otherwise it is
+refused; the same for group membership of the reference. -/
+theorem send_accepted_iff_reference_live {F : Type} (evs : List (Link.Ev F)) (pid : Nat) :
+    let s := Link.run ({} : Link.S F) evs
+    let s' := Link.step s (.sendVia pid)
+    (Link.accepts s pid = true ↔ (s.nodeUp = true ∧ advertised pid (Link.ctls evs) = true)) ∧
+    (Link.accepts s pid = true → s'.accepted = s.accepted ++ [pid] ∧ s'.refused = s.refused) ∧
+    (Link.accepts s pid = false → s'.accepted = s.accepted ∧ s'.refused = s.refused ++ [pid]) ∧
+    (∀ k, (k, pid) ∈ s.mirror.members ↔ (s.nodeUp = true ∧ announced k pid (Link.ctls evs) = true)) := by
+  have hinv := Link.inv_run evs _ (Link.inv_init (F := F))
+  refine ⟨?_, ?_, ?_, ?_⟩
+  · cases hup : (Link.run ({} : Link.S F) evs).nodeUp with
+    | false => simp [Link.accepts, hinv.node hup]
+    | true =>
+      have hm := Link.mirror_of_ctls evs ({} : Link.S F) hup
+      have := (proxies_mirror_control_stream (Link.ctls evs) pid).1
+      simp only [Link.accepts, hm, List.contains_iff_mem, true_and]
+      exact this
+  · intro h
+    simp only [Link.accepts, List.contains_iff_mem] at h
+    simp only [Link.step, List.contains_iff_mem, if_pos h, and_self]
+  · intro h
+    simp only [Link.accepts] at h
+    have h' : ¬ pid ∈ (Link.run ({} : Link.S F) evs).mirror.proxies := by
+      intro hm
+      have := List.contains_iff_mem.mpr hm
+      rw [this] at h
+      exact absurd h (by simp)
+    simp only [Link.step, List.contains_iff_mem, if_neg h', and_self]
+  · intro k
+    cases hup : (Link.run ({} : Link.S F) evs).nodeUp with
+    | false => simp [hinv.node hup]
+    | true =>
+      have hm := Link.mirror_of_ctls evs ({} : Link.S F) hup
+      have := groups_mirror_control_stream (Link.ctls evs) k pid
+      simp only [hm, true_and]
+      exact this
+
+/-- (what the code does when a REFERENCE is stopped) `ActorCell::stop` on one remote reference
+makes the node session fail (`stop_and_wait` on the dead proxy returns an error that the
+supervision handler propagates): the whole session goes down at once — every other reference
+included — and stays down. -/
+theorem stopping_one_reference_closes_the_session {F : Type} (evs more : List (Link.Ev F)) (pid : Nat)
+    (hup : (Link.run ({} : Link.S F) evs).nodeUp = true)
+    (hp : Link.accepts (Link.run ({} : Link.S F) evs) pid = true) :
+    let s := Link.run (Link.step (Link.run ({} : Link.S F) evs) (.proxyStopped pid)) more
+    s.sessUp = false ∧ s.nodeUp = false ∧ s.mirror.proxies = [] ∧ s.mirror.members = [] ∧
+      ∀ q, Link.accepts s q = false := by
+  have hd : Link.Down (Link.step (Link.run ({} : Link.S F) evs) (.proxyStopped pid)) := by
+    simp only [Link.accepts] at hp
+    simp only [Link.step, hup, hp, Bool.and_self, if_true]
+    exact ⟨rfl, rfl, rfl, rfl, by simp [Mirror.step]⟩
+  have := (Link.down_run more _ hd).1
+  refine ⟨this.sess, this.node, by simp [this.mirror], by simp [this.mirror], ?_⟩
+  intro q
+  simp [Link.accepts, this.mirror]
 
 /-- the oracle `Link.okDown` holds of the model: at rest after a reported transport error nothing
 is running, in a group or accepting sends -/
@@ -428,5 +491,7 @@ example :
 #print axioms C20.every_stream_end_closes_session
 #print axioms C20.frames_reach_node_session_under_any_fragmentation
 #print axioms C20.okDown_model
+#print axioms C20.send_accepted_iff_reference_live
+#print axioms C20.stopping_one_reference_closes_the_session
 
 end C20
